@@ -198,6 +198,11 @@ pub trait Mut {
     /// canonical form of a key / value number under the cell's element types
     fn canon_k(&self, k: u64) -> u64 { k }
     fn canon_v(&self, v: u64) -> u64 { v }
+    /// what the cell's caller-supplied BuildHasher returns for the key numbered `k` (computed outside the map, on the real
+    /// key type); None = the cell's hasher is not known to the harness
+    fn key_hash(&self, _k: u64) -> Option<u64> { None }
+    /// a bookkeeping counter that the cell's Coq model tracks (selected by `w`); None = none
+    fn counter(&mut self, _w: u64) -> Option<u64> { None }
     /// Clone: the map is replaced by its clone (even `w`) or the clone is compared with the map and dropped (odd `w`);
     /// where the type has PartialEq: clone == map, and a clone that differs in one value / one key / one entry is != map
     fn clone_swap(&mut self, _w: u64, _present: Option<(u64, u64)>, _absent: Option<u64>) -> Option<R<()>> { None }
@@ -223,6 +228,8 @@ impl<T: Ty, S: BuildHasher + Clone + 'static> Zip<T, S> {
 impl<T: Ty, S: BuildHasher + Clone + 'static> Mut for Zip<T, S> {
     fn canon_k(&self, k: u64) -> u64 { T::kb(&T::k(self.1, k)) }
     fn canon_v(&self, v: u64) -> u64 { T::vb(&T::v(v)) }
+    // meaningful only for S = ModeBuild(self.1) (the cells that carry a table-driven model)
+    fn key_hash(&self, k: u64) -> Option<u64> { Some(ModeBuild(self.1).hash_one(T::k(self.1, k))) }
     fn insert(&mut self, k: u64, v: u64) -> Option<R<Option<u64>>> { Some(self.0.insert(T::k(self.1, k), T::v(v)).map(|o| o.map(|x| T::vb(&x))).map_err(estr)) }
     fn remove(&mut self, k: u64) -> Option<R<Option<u64>>> { Some(Ok(self.0.remove(&T::k(self.1, k)).map(|x| T::vb(&x)))) }
     fn get(&mut self, k: u64) -> Option<Option<u64>> { Some(self.0.get(&T::k(self.1, k)).map(T::vb)) }
@@ -264,8 +271,9 @@ impl<T: Ty, S: BuildHasher + Clone + 'static> Mut for Zip<T, S> {
 }
 
 /// String keys, looked up through &str (the Borrow<Q> path: hash_key_borrowed vs hash_key)
-pub struct ZipStr(pub ZiporaHashMap<String, u64, ModeBuild>);
+pub struct ZipStr(pub ZiporaHashMap<String, u64, ModeBuild>, pub u64);
 impl Mut for ZipStr {
+    fn key_hash(&self, k: u64) -> Option<u64> { Some(ModeBuild(self.1).hash_one(skey(k))) }
     fn insert(&mut self, k: u64, v: u64) -> Option<R<Option<u64>>> { Some(self.0.insert(skey(k), v).map_err(estr)) }
     fn remove(&mut self, k: u64) -> Option<R<Option<u64>>> { Some(Ok(self.0.remove(skey(k).as_str()))) }
     fn get(&mut self, k: u64) -> Option<Option<u64>> { Some(self.0.get(skey(k).as_str()).copied()) }
@@ -284,6 +292,12 @@ impl<T: Ty, L: LinkType> Gold<T, L> {
     fn safe(&self) -> Vec<(u64, u64)> { self.0.iter_with_strategy(IterationStrategy::Safe).map(|(k, v)| (T::kb(k), T::vb(v))).collect() }
 }
 impl<T: Ty, L: LinkType> Mut for Gold<T, L> {
+    // GoldHashMap hashes with std's DefaultHasher (fixed keys)
+    fn key_hash(&self, k: u64) -> Option<u64> {
+        let mut h = std::collections::hash_map::DefaultHasher::new();
+        T::k(self.1, k).hash(&mut h);
+        Some(h.finish())
+    }
     fn canon_k(&self, k: u64) -> u64 { T::kb(&T::k(self.1, k)) }
     fn canon_v(&self, v: u64) -> u64 { T::vb(&T::v(v)) }
     fn insert(&mut self, k: u64, v: u64) -> Option<R<Option<u64>>> { Some(self.0.insert(T::k(self.1, k), T::v(v)).map(|o| o.map(|x| T::vb(&x))).map_err(estr)) }
@@ -526,6 +540,10 @@ impl<T: Ty> Mut for Easy<T> {
 // ---------------------------------------------------------------------------------------------
 pub struct StrM(pub HashStrMap<u64>);
 impl Mut for StrM {
+    fn counter(&mut self, w: u64) -> Option<u64> {
+        let st = self.0.statistics();
+        Some(match w % 3 { 0 => st.entries, 1 => st.total_strings, _ => st.unique_strings } as u64)
+    }
     fn insert(&mut self, k: u64, v: u64) -> Option<R<Option<u64>>> {
         let s = skey(k);
         Some(match k % 3 { 0 => self.0.insert(&s, v), 1 => self.0.insert_string(s, v), _ => self.0.insert_fast_str(FastStr::from_string(&s), v) }.map_err(estr))
